@@ -297,6 +297,36 @@ func AtomUnits() []*Unit {
 		us = append(us, b.Unit())
 	}
 	// ---- proto2 extensions, one unit per family so that a failing family takes nothing else down
+	// ---- required fields only in nested messages; equally named nested messages of which only one has required fields
+	{
+		b := NewUnit("p2reqnested", "proto2", "required-nested").Atom("required-only-in-nested-messages")
+		o := b.Msg("Outer")
+		in := o.Nested("Inner")
+		in.F("id", 1, Int32, Required).F("note", 2, String, Optional)
+		o.FMsg("inner", 1, in.Full(), Optional).F("tag", 2, String, Optional)
+		b.Msg("Plain").F("x", 1, Int64, Optional)
+		us = append(us, b.Unit())
+	}
+	{
+		b := NewUnit("p2reqsamename", "proto2", "required-samename").Atom("required-in-one-of-two-equally-named-nested-messages")
+		rq := b.Msg("Request")
+		rh := rq.Nested("Header")
+		rh.F("id", 1, Int32, Required).F("trace", 2, String, Required)
+		rq.FMsg("header", 1, rh.Full(), Optional).F("body", 2, Bytes, Optional)
+		rs := b.Msg("Response")
+		sh := rs.Nested("Header")
+		sh.F("code", 1, Int32, Optional)
+		rs.FMsg("header", 1, sh.Full(), Optional).F("must", 2, Int32, Required)
+		a := b.Msg("Aaa")
+		ah := a.Nested("Part")
+		ah.F("opt", 1, Int32, Optional)
+		a.FMsg("part", 1, ah.Full(), Optional)
+		z := b.Msg("Zzz")
+		zh := z.Nested("Part")
+		zh.F("req", 1, Int32, Required)
+		z.FMsg("part", 1, zh.Full(), Optional)
+		us = append(us, b.Unit())
+	}
 	extUnit := func(name, group string, atoms ...string) (*FileB, *MsgB) {
 		b := NewUnit(name, "proto2", group).Atom(atoms...)
 		base := b.Msg("Base")
